@@ -1067,10 +1067,13 @@ func ruleAutomaton(w *World, r *Report, pkg *ssa.Package) {
 		kind  string
 	}
 	var shapes [][]line
-	ctx := []string{"absent", "void", "value"}
+	// context forms: what Diff emits (absent / boundary / one value) and the multi-line forms of
+	// hand-edited patches that the reader accepts and doc/v2.md shows ([ then a value, two values; a value then ], two values)
+	ctxB := []string{"absent", "void", "value", "void+value", "value+value"}
+	ctxA := []string{"absent", "void", "value", "value+void", "value+value"}
 	for _, merge := range []bool{false, true} {
-		for _, bf := range ctx {
-			for _, af := range ctx {
+		for _, bf := range ctxB {
+			for _, af := range ctxA {
 				for nr := 0; nr <= 2; nr++ {
 					for na := 0; na <= 2; na++ {
 						for _, voidAdd := range []bool{false, true} {
@@ -1089,11 +1092,9 @@ func ruleAutomaton(w *World, r *Report, pkg *ssa.Package) {
 							}
 							ls = append(ls, line{wt.path, "Path", "path"})
 							if bf != "absent" {
-								k := "void"
-								if bf == "value" {
-									k = "value"
+								for _, k := range strings.Split(bf, "+") {
+									ls = append(ls, line{wt.header["Before"][k], "Before", map[string]string{"void": "void", "value": "payload"}[k]})
 								}
-								ls = append(ls, line{wt.header["Before"][k], "Before", map[string]string{"void": "void", "value": "payload"}[k]})
 							}
 							for i := 0; i < nr; i++ {
 								ls = append(ls, line{wt.header["Remove"]["value"], "Remove", "payload"})
@@ -1106,11 +1107,9 @@ func ruleAutomaton(w *World, r *Report, pkg *ssa.Package) {
 								}
 							}
 							if af != "absent" {
-								k := "void"
-								if af == "value" {
-									k = "value"
+								for _, k := range strings.Split(af, "+") {
+									ls = append(ls, line{wt.header["After"][k], "After", map[string]string{"void": "void", "value": "payload"}[k]})
 								}
-								ls = append(ls, line{wt.header["After"][k], "After", map[string]string{"void": "void", "value": "payload"}[k]})
 							}
 							shapes = append(shapes, ls)
 						}
